@@ -88,7 +88,7 @@ func isNonFatalConfig(
 	for _, combination := range combinations {
 		distribution := divider(combination, quantity, nil)
 
-		if !common.IsDistributionFilled(distribution) {
+		if !common.IsDistributionFilledFor(distribution, combination) {
 			return false
 		}
 	}
@@ -197,7 +197,7 @@ func isSuitableConfig(
 	for _, combination := range combinations {
 		distribution := divider(combination, quantity, nil)
 
-		if !common.IsDistributionFilled(distribution) {
+		if !common.IsDistributionFilledFor(distribution, combination) {
 			return false
 		}
 
